@@ -1,11 +1,74 @@
 (* Props/C31.v — property C31: regular-expression automata accept exactly the expression's
-   language. Only statements, [exact] of a lemma from Proofs/, and Print Assumptions. *)
+   language. Only statements, [exact] of a lemma from Proofs/, and Print Assumptions.
+   Model.Regex mirrors ppci/lang/tools/regex/{regex,compiler,scanner,parser}.py (tie H);
+   L / L_alt are the denotations of Spec/RegLangSpec.v.
+   [re_valid r] (Proofs/C31_dfa.v): every range (lo, hi) of every SymbolSet of r has lo <= hi —
+   the class invariant of IntegerSet (its constructor filters the others out). *)
 From PV Require Import Lib.Py Spec.RegLangSpec Model.Regex.
+From PV Require Import Proofs.C31_sets Proofs.C31_regex Proofs.C31_dfa Proofs.C31_parser.
 Open Scope Z_scope.
 
-(* the parser as found: "ab|cd" is parsed as a(b|c)d *)
-Theorem c31_parser_orig_shape :
-  orig_parse 100 [97; 98; 124; 99; 100] =
-  Ok (Cat (Cat (Sym [(97, 97)]) (Sym [(98, 99)])) (Sym [(100, 100)])).
-Proof. vm_compute. reflexivity. Qed.
-Print Assumptions c31_parser_orig_shape.
+(* nullable() decides membership of the empty word *)
+Theorem c31_nullable : forall r, nullable r = true <-> L r [].
+Proof. exact nullable_spec. Qed.
+Print Assumptions c31_nullable.
+
+(* the smart constructors (with all their simplifications) preserve the language *)
+Theorem c31_concatenate : forall a b w, L (concatenate a b) w <-> L (Cat a b) w.
+Proof. exact concatenate_L. Qed.
+Print Assumptions c31_concatenate.
+
+Theorem c31_logical_or : forall a b w, L (logical_or a b) w <-> L a w \/ L b w.
+Proof. exact logical_or_L. Qed.
+Print Assumptions c31_logical_or.
+
+Theorem c31_logical_and : forall a b w, L (logical_and a b) w <-> L a w /\ L b w.
+Proof. exact logical_and_L. Qed.
+Print Assumptions c31_logical_and.
+
+(* derivative(symbol) denotes the left quotient *)
+Theorem c31_derivative : forall r c w, L (deriv r c) w <-> L r (c :: w).
+Proof. exact deriv_spec. Qed.
+Print Assumptions c31_derivative.
+
+(* two symbols of one derivative class have the same derivative (as regex objects) *)
+Theorem c31_classes_sound : forall r K a b,
+  In K (classes r) -> in_ranges a K -> in_ranges b K -> deriv r a = deriv r b.
+Proof. exact classes_sound. Qed.
+Print Assumptions c31_classes_sound.
+
+(* the classes cover SIGMA = 0..255 and are pairwise disjoint *)
+Theorem c31_classes_partition : forall r,
+  (forall c, in_sigma c -> exists K, In K (classes r) /\ in_ranges c K) /\
+  ForallOrdPairs (fun K1 K2 => forall c, ~ (in_ranges c K1 /\ in_ranges c K2)) (classes r).
+Proof. intros r. split; [exact (classes_cover r)|exact (classes_disjoint r)]. Qed.
+Print Assumptions c31_classes_partition.
+
+(* compile() then the table-driven run (pick_transition from state 0, accept_states lookup):
+   whenever the run returns, it returns membership in L(r). Every fuel that lets compile finish
+   qualifies; c31_nonvacuous shows instances. *)
+Theorem c31_dfa_correct : forall fuel r d, re_valid r -> compile fuel r = Ok d ->
+  forall s b, run d s = Ok b -> (b = true <-> L r s).
+Proof. exact dfa_correct. Qed.
+Print Assumptions c31_dfa_correct.
+
+(* the parser as found does NOT implement the reference grammar: for the well-formed concrete
+   syntax tree of "ab|cd" it returns a regex that rejects "ab" *)
+Theorem c31_parser_matches_grammar_refuted :
+  exists (a : alt) (w : list Z) (r : re),
+    wf_alt a /\ orig_parse 100 (unparse_alt a) = Ok r /\ L_alt a w /\ ~ L r w.
+Proof. exact parser_orig_refuted. Qed.
+Print Assumptions c31_parser_matches_grammar_refuted.
+
+Example c31_nonvacuous :
+  parse 100 [97; 98; 124; 99; 100] = Ok witness_fixed /\ re_valid witness_fixed /\
+  (exists d, compile 50 witness_fixed = Ok d /\ run d [97; 98] = Ok true /\ run d [99; 100] = Ok true /\
+             run d [97; 98; 100] = Ok false /\ run d [] = Ok false) /\
+  nullable (Star (Sym [(97, 97)])) = true /\
+  deriv (Cat (Sym [(97, 97)]) (Sym [(98, 98)])) 97 = Sym [(98, 98)] /\
+  classes (Sym [(97, 97)]) = [[(97, 97)]; [(0, 96); (98, 255)]].
+Proof.
+  split; [vm_compute; reflexivity|]. split; [cbv; repeat split; auto; repeat constructor; discriminate|].
+  split; [eexists; split; [vm_compute; reflexivity|]; vm_compute; repeat split|].
+  vm_compute. repeat split.
+Qed.
